@@ -25,12 +25,16 @@ pub mod h_recover {
 pub mod h_pratt {
     include!(concat!(env!("CHUMSKY_VERIF_DIR"), "/h_pratt.rs"));
 }
+pub mod h_drop {
+    include!(concat!(env!("CHUMSKY_VERIF_DIR"), "/h_drop.rs"));
+}
 pub fn register_all(r: &mut Vec<(&'static str, fn())>) {
     h_comb::register(r);
     h_prim::register(r);
     h_comb2::register(r);
     h_iter::register(r);
     h_top::register(r);
+    h_drop::register(r);
     h_pratt::register(r);
     h_recover::register(r);
     h_inputref::register(r);
